@@ -176,6 +176,35 @@ class InterpretedFunctionsRemover(engines.engine.Engine, CompilerMixin):
     ) -> ProblemKind:
         assert isinstance(problem_kind, ProblemKind)
         new_kind = problem_kind.clone()
+        in_conditions = new_kind.has_interpreted_functions_in_conditions()
+        in_durations = new_kind.has_interpreted_functions_in_durations()
+        in_numeric = new_kind.has_interpreted_functions_in_numeric_assignments()
+        in_boolean = new_kind.has_interpreted_functions_in_boolean_assignments()
+        in_object = new_kind.has_interpreted_functions_in_object_assignments()
+        if in_conditions or in_durations or in_numeric or in_boolean or in_object:
+            # the known / unknown variants of an action are told apart by (negated) disjunctions
+            # of equalities over the known arguments, the goals by `goal or is_unknown`
+            new_kind.set_conditions_kind("DISJUNCTIVE_CONDITIONS")
+            new_kind.set_conditions_kind("NEGATIVE_CONDITIONS")
+            new_kind.set_conditions_kind("EQUALITIES")
+        if in_conditions or in_durations or in_numeric:
+            # numeric interpreted functions are replaced by numeric placeholder fluents
+            new_kind.set_fluents_type("INT_FLUENTS")
+            new_kind.set_fluents_type("REAL_FLUENTS")
+            new_kind.set_problem_type("SIMPLE_NUMERIC_PLANNING")
+        if in_durations:
+            # an unknown duration becomes the interval [1, 1000000] of reals
+            new_kind.set_expression_duration("REAL_TYPE_DURATIONS")
+            new_kind.set_time("DURATION_INEQUALITIES")
+            new_kind.set_expression_duration("STATIC_FLUENTS_IN_DURATIONS")
+        if in_numeric:
+            new_kind.set_effects_kind("STATIC_FLUENTS_IN_NUMERIC_ASSIGNMENTS")
+        if in_object:
+            new_kind.set_effects_kind("STATIC_FLUENTS_IN_OBJECT_ASSIGNMENTS")
+        if in_numeric or in_boolean or in_object:
+            # the fluents that track whether an assigned value is known
+            new_kind.set_effects_kind("STATIC_FLUENTS_IN_BOOLEAN_ASSIGNMENTS")
+            new_kind.set_effects_kind("FLUENTS_IN_BOOLEAN_ASSIGNMENTS")
         if new_kind.has_interpreted_functions_in_conditions():
             new_kind.unset_conditions_kind("INTERPRETED_FUNCTIONS_IN_CONDITIONS")
         if new_kind.has_interpreted_functions_in_durations():
